@@ -7,4 +7,6 @@ TGT="$HERE/target"; mkdir -p "$TGT" "$HERE/evidence"
 ( cd "$HERE/harness" && CARGO_TARGET_DIR="$TGT/native" RUSTFLAGS="--cfg burntsushi_fst_verif" cargo build --offline --release --bin fstmon ) 2>&1 | tail -3
 ( cd "$HERE/harness" && CARGO_TARGET_DIR="$TGT/native" RUSTFLAGS="--cfg burntsushi_fst_verif" cargo build --offline --profile relcheck --bin fstmon ) 2>&1 | tail -3
 ( cd /repo && CARGO_TARGET_DIR="$TGT/fstbin" RUSTFLAGS="--cfg burntsushi_fst_verif" cargo build --offline --release -p fst-bin ) 2>&1 | tail -3
+# Miri build of the C20 shard binary (sysroot + dependencies); a failure here only makes C20 slower / inconclusive later
+( cd "$HERE/harness" && CARGO_TARGET_DIR="$TGT/miri" RUSTFLAGS="--cfg burntsushi_fst_verif" MIRIFLAGS="" cargo +nightly miri run --offline --bin fstmiri -- 0 0 0 probe ) 2>&1 | tail -2
 exit 0
